@@ -135,11 +135,20 @@ func (g *G) Leaf(ty m.Ty) *m.Node {
 	if g.Consts {
 		cw = 1
 	}
-	switch pickW(g.t, "leaf", 5, 4, cw) {
+	bw := 0
+	if g.BadVars && (ty == m.TInt || ty == m.TBool) {
+		bw = 1
+	}
+	switch pickW(g.t, "leaf", 5, 4, bw, cw) {
 	case 0:
 		return m.Const(genVal(g.t, ty, "lit"))
 	case 1:
 		return m.Var(g.varName(ty))
+	case 2:
+		if ty == m.TInt {
+			return m.Var(rapid.SampledFrom([]string{"fi", "ui"}).Draw(g.t, "badvar"))
+		}
+		return m.Var(rapid.SampledFrom([]string{"fb", "ub"}).Draw(g.t, "badvar"))
 	default:
 		return m.NamedConst(constName[ty], nil) // value filled in with the universe
 	}
